@@ -48,11 +48,15 @@ def run(ctx):
         plans += int(hrep.get("stats", {}).get("plans", 0) or 0)
         samples += list(hrep.get("samples", []))[:1]
     # 4. random sessions cut at a random step
-    for i, n in enumerate([6] if q else [6, 12]):
+    for i, (n, hold, op) in enumerate([(6, False, False), (4, True, False), (4, True, True)] if q else
+                                      [(6, False, False), (4, True, False), (4, True, True), (12, False, False), (6, False, True)]):
+        # hold: one long delay per case (a request's goroutine parked at one action, every hook in turn) across the disconnect;
+        # op: the implementation has a FlushOp and cancels requests it is executing
         cr = srvfam.consts(ctx, NReq=n, Tags=set(range(1, n + 1)), Fids={1, 2, 3}, Kinds={"Attach", "Stat", "Clunk", "Walk", "Flush"},
-                           Late=True, InitFids={1}, CanClose=True)
-        rc = {"cases": 150 if q else 1500, "nreq": n, "kinds": ["Attach", "Stat", "Clunk", "Walk", "Flush"], "shared": False,
-              "close": True, "extra": False, "latep": 20, "sendp": 40, "probe": False, "closevariants": True}
+                           Late=True, InitFids={1}, CanClose=True, HasFlushOp=op)
+        rc = {"cases": (360 if hold else 150) if q else (3600 if hold else 1500), "nreq": n,
+              "kinds": ["Attach", "Stat", "Clunk", "Walk", "Flush"] + (["Flush"] if op else []), "shared": False,
+              "close": True, "extra": False, "latep": 20, "sendp": 40, "probe": False, "closevariants": True, "hold": hold}
         tag = "crand%d" % i
         rrep, tp, ep, bp = srvfam.random_run(ctx, cr, rc, tag, 800000 + 20000 * i)
         rj, tl = srvfam.run_trace_validation(ctx, tp, cr, name="Srv9PTrace:" + tag)
